@@ -36,7 +36,7 @@ package plumbing
 //gvc:func (*Reference).Name
 //gvc:  props C19 C39
 //gvc:  theory int
-//gvc:  ensures same: result == r.n
+//gvc:  ensures same: same_string(result, r.n)
 //gvc:end
 
 //gvc:func (*Reference).Hash
@@ -102,4 +102,29 @@ package plumbing
 //gvc:func ObjectType.Bytes
 //gvc:  trusted
 //gvc:  ensures len(result) == spec_typename_len(t)
+//gvc:end
+
+//gvc:func ReferenceName.String
+//gvc:  props C14
+//gvc:  theory int
+//gvc:  ensures same: same_string(result, r)
+//gvc:end
+
+// IsSafe is a function of the name (its byte-level characterisation is not
+// yet under contract: range-over-func iteration is outside the subset).
+//gvc:func ReferenceName.IsSafe
+//gvc:  trusted
+//gvc:  ensures fn: result == spec_issafe(strid(r))
+//gvc:end
+
+//gvc:func (*Reference).Type
+//gvc:  props C14
+//gvc:  theory int
+//gvc:  ensures same: result == r.t
+//gvc:end
+
+//gvc:func (*Reference).Target
+//gvc:  props C14
+//gvc:  theory int
+//gvc:  ensures same: same_string(result, r.target)
 //gvc:end
